@@ -284,12 +284,14 @@ class GenInterp(Interp):
                 if t.wrap[0] != 'atan2':
                     self.err(node, 'arithmetic on an acos result')
             return t.like(term, zero=t.zero and tag == 'mul')
-        if op is ast.Pow and isinstance(a, int) and not isinstance(a, bool) and a > 1 and ir.is_term(b):
-            return ('exp', ('mul', b, ('ln', ('cst', a))))
+        if op is ast.Pow and isinstance(a, (int, float)) and not isinstance(a, bool) and a > 0 and a != 1 and ir.is_term(b):
+            return ('exp', ('mul', b, ('ln', ir.const(a))))          # base ** exponent, concrete positive base
         return super().binop(node, op, a, b)
 
     # ------------------------------------------------------------- torch / numpy
     def builtin(self, n, name, args, kwargs):
+        if name == 'torch.log10' and len(args) == 1 and not kwargs and isinstance(args[0], AT) and not args[0].wrap and not args[0].clamp:
+            return args[0].like(('div', ('ln', args[0].term), LN10), zero=False)
         un = {'torch.cos': 'cos', 'torch.sqrt': 'sqrt', 'torch.log': 'ln', 'torch.abs': 'abs', 'torch.sin': 'sin', 'torch.exp': 'exp'}
         if name in un and len(args) == 1 and not kwargs and isinstance(args[0], AT):
             t = args[0]
@@ -536,8 +538,9 @@ def method_strings(repo, clsname):
     return out
 
 
-def run_entry(repo, ckey, method, noisy=None):
-    """Returns an entry dict, or None if the constructor rejects the method."""
+def run_entry(repo, ckey, method, noisy=None, base=None):
+    """Returns an entry dict, or None if the constructor rejects the method.  `base` (GeneratorND only): a
+    concrete per-axis base for validation-only entries (the emitted table uses the default base)."""
     conf = CLASSES[ckey]
     facts = {}
     for _ in range(6):
@@ -545,6 +548,8 @@ def run_entry(repo, ckey, method, noisy=None):
         I.facts = dict(facts)
         try:
             kw = conf['ctor'](method, noisy) if ckey == 'GND' else conf['ctor'](method)
+            if base is not None:
+                kw['base'] = tuple(base)
             obj = I.instantiate(conf['cls'], **kw)
             break
         except NeedFact as e:
@@ -557,7 +562,7 @@ def run_entry(repo, ckey, method, noisy=None):
             raise TranslationError(F, r.line, f'{conf["cls"]}({method}) raises {r.exc_name}')
     else:
         raise TranslationError(F, 0, 'guards did not converge')
-    ent = {'cls': ckey, 'method': method, 'noisy': bool(noisy), 'pos_guard': any(k.endswith('LtE 0') for k in facts) or method.startswith('log-spaced'),
+    ent = {'cls': ckey, 'method': method, 'noisy': bool(noisy), 'base': list(base) if base is not None else None, 'pos_guard': any(k.endswith('LtE 0') for k in facts) or method.startswith('log-spaced'),
            'ctor_rng': list(I.rng['ctor']), 'call_rng': [], 'tensors': [], 'defs': [], 'mesh': 'none', 'getter': 'missing'}
     size = obj.attrs.get('size')
     if size is None:
